@@ -1055,6 +1055,317 @@ fn add_anchors(d: &[u8], l: &mut Layout) {
 }
 
 // ------------------------------------------------------------------------------------------
+// references between records of the same kind (a record naming another record by index): the
+// places where damaged data can describe a cycle. Found with my own readers.
+
+#[derive(Clone, Debug)]
+pub struct Ref {
+    pub kind: &'static str,
+    /// absolute position and width of the field holding the reference
+    pub at: usize,
+    pub width: u8,
+    /// index of the record that contains the field, in the numbering the field itself uses
+    pub owner: u32,
+    /// value to add to an index before it is written (CFF subroutine bias, operand encoding)
+    pub bias: i32,
+}
+
+/// SequenceLookupRecord.lookupListIndex fields of the contextual subtables of one lookup
+fn otl_context_refs(t: &[u8], so: usize, ty_ctx: bool, out: &mut Vec<usize>) {
+    let records = |at: usize, n: usize, out: &mut Vec<usize>| {
+        for k in 0..n.min(16) {
+            if at + 4 * k + 4 <= t.len() {
+                out.push(at + 4 * k + 2);
+            }
+        }
+    };
+    let fmt = be16(t, so).unwrap_or(0);
+    let rule = |ro: usize, out: &mut Vec<usize>| {
+        if ty_ctx {
+            let (gc, sc) = (be16(t, ro).unwrap_or(0) as usize, be16(t, ro + 2).unwrap_or(0) as usize);
+            records(ro + 4 + 2 * gc.saturating_sub(1), sc, out);
+        } else {
+            let bc = be16(t, ro).unwrap_or(0) as usize;
+            let ic_at = ro + 2 + 2 * bc;
+            let ic = be16(t, ic_at).unwrap_or(0) as usize;
+            let lc_at = ic_at + 2 + 2 * ic.saturating_sub(1);
+            let lc = be16(t, lc_at).unwrap_or(0) as usize;
+            let sc_at = lc_at + 2 + 2 * lc;
+            let sc = be16(t, sc_at).unwrap_or(0) as usize;
+            records(sc_at + 2, sc, out);
+        }
+    };
+    match fmt {
+        1 | 2 => {
+            let cnt_at = if fmt == 1 { so + 4 } else if ty_ctx { so + 6 } else { so + 10 };
+            let n = be16(t, cnt_at).unwrap_or(0) as usize;
+            for i in 0..n.min(16) {
+                let o = be16(t, cnt_at + 2 + 2 * i).unwrap_or(0) as usize;
+                if o == 0 {
+                    continue;
+                }
+                let set = so + o;
+                let rn = be16(t, set).unwrap_or(0) as usize;
+                for r in 0..rn.min(8) {
+                    if let Some(ro) = be16(t, set + 2 + 2 * r) {
+                        rule(set + ro as usize, out);
+                    }
+                }
+            }
+        }
+        3 => {
+            if ty_ctx {
+                let (gc, sc) = (be16(t, so + 2).unwrap_or(0) as usize, be16(t, so + 4).unwrap_or(0) as usize);
+                records(so + 6 + 2 * gc, sc, out);
+            } else {
+                let bc = be16(t, so + 2).unwrap_or(0) as usize;
+                let ic_at = so + 4 + 2 * bc;
+                let ic = be16(t, ic_at).unwrap_or(0) as usize;
+                let lc_at = ic_at + 2 + 2 * ic;
+                let lc = be16(t, lc_at).unwrap_or(0) as usize;
+                let sc_at = lc_at + 2 + 2 * lc;
+                let sc = be16(t, sc_at).unwrap_or(0) as usize;
+                records(sc_at + 2, sc, out);
+            }
+        }
+        _ => {}
+    }
+}
+
+fn otl_refs(t: &[u8], base: usize, gsub: bool, out: &mut Vec<Ref>) {
+    let (ctx, chain, ext) = if gsub { (5u16, 6u16, 7u16) } else { (7, 8, 9) };
+    let ll = be16(t, 8).unwrap_or(0) as usize;
+    if ll == 0 {
+        return;
+    }
+    let n = be16(t, ll).unwrap_or(0) as usize;
+    for li in 0..n.min(64) {
+        let lo = match be16(t, ll + 2 + 2 * li) {
+            Some(o) => ll + o as usize,
+            None => break,
+        };
+        let ty = be16(t, lo).unwrap_or(0);
+        let cnt = be16(t, lo + 4).unwrap_or(0) as usize;
+        for si in 0..cnt.min(8) {
+            let mut so = match be16(t, lo + 6 + 2 * si) {
+                Some(o) => lo + o as usize,
+                None => break,
+            };
+            let mut sty = ty;
+            if ty == ext {
+                sty = be16(t, so + 2).unwrap_or(0);
+                so += be32(t, so + 4).unwrap_or(0) as usize;
+            }
+            if sty == ctx || sty == chain {
+                let mut fields = Vec::new();
+                otl_context_refs(t, so, sty == ctx, &mut fields);
+                for f in fields {
+                    out.push(Ref { kind: if gsub { "gsub-lookup" } else { "gpos-lookup" }, at: base + f, width: 2, owner: li as u32, bias: 0 });
+                }
+            }
+        }
+    }
+}
+
+/// call operators of a Type 2 CharString whose operand is a one-byte number: (position of the
+/// operand byte, is_global). Gives up at the first hintmask (mask length needs the stem count).
+fn charstring_calls(cs: &[u8]) -> Vec<(usize, bool)> {
+    let mut out = Vec::new();
+    let mut i = 0usize;
+    let mut last_num: Option<usize> = None;
+    while i < cs.len() {
+        let b = cs[i];
+        match b {
+            32..=246 => {
+                last_num = Some(i);
+                i += 1;
+            }
+            247..=254 => {
+                last_num = None;
+                i += 2;
+            }
+            28 => {
+                last_num = None;
+                i += 3;
+            }
+            255 => {
+                last_num = None;
+                i += 5;
+            }
+            10 | 29 => {
+                if let Some(p) = last_num {
+                    out.push((p, b == 29));
+                }
+                last_num = None;
+                i += 1;
+            }
+            19 | 20 => break,
+            12 => {
+                last_num = None;
+                i += 2;
+            }
+            _ => {
+                last_num = None;
+                i += 1;
+            }
+        }
+    }
+    out
+}
+
+/// All references of the file, grouped by kind.
+pub fn find_refs(d: &[u8], l: &Layout) -> Vec<Ref> {
+    let mut out: Vec<Ref> = Vec::new();
+    let tab = |name: &str| l.regions.iter().find(|r| r.class == RClass::Table && r.name == name);
+    // sbix: `dupe` records
+    if let Some(r) = tab("sbix") {
+        let t = &d[r.off..r.off + r.len];
+        let ns = be32(t, 4).unwrap_or(0) as usize;
+        for s in 0..ns.min(4) {
+            let so = match be32(t, 8 + 4 * s) {
+                Some(o) => o as usize,
+                None => break,
+            };
+            let num_glyphs = tab("maxp").and_then(|m| be16(d, m.off + 4)).unwrap_or(0) as usize;
+            let mut g = 0usize;
+            while g < num_glyphs.min(256) {
+                let (a, b) = match (be32(t, so + 4 + 4 * g), be32(t, so + 8 + 4 * g)) {
+                    (Some(a), Some(b)) => (a as usize, b as usize),
+                    _ => break,
+                };
+                if b >= a + 10 && t.get(so + a + 4..so + a + 8) == Some(&b"dupe"[..]) {
+                    out.push(Ref { kind: "sbix-dupe", at: r.off + so + a + 8, width: 2, owner: g as u32, bias: 0 });
+                }
+                g += 1;
+            }
+        }
+    }
+    // glyf: component glyph ids
+    if let (Some(glyf), Some(loca), Some(head)) = (tab("glyf"), tab("loca"), tab("head")) {
+        let long = be16(d, head.off + 50).unwrap_or(0) == 1;
+        let n = if long { loca.len / 4 } else { loca.len / 2 };
+        for g in 0..n.saturating_sub(1).min(256) {
+            let off = if long { be32(d, loca.off + 4 * g).map(|o| o as usize) } else { be16(d, loca.off + 2 * g).map(|o| o as usize * 2) };
+            let end = if long { be32(d, loca.off + 4 * g + 4).map(|o| o as usize) } else { be16(d, loca.off + 2 * g + 2).map(|o| o as usize * 2) };
+            let (off, end) = match (off, end) {
+                (Some(a), Some(b)) if b > a && b <= glyf.len => (a, b),
+                _ => continue,
+            };
+            let gl = &d[glyf.off + off..glyf.off + end];
+            if be16(gl, 0).map(|c| c as i16) != Some(-1) {
+                continue;
+            }
+            let mut at = 10usize;
+            for _ in 0..16 {
+                let flags = match be16(gl, at) {
+                    Some(f) => f,
+                    None => break,
+                };
+                out.push(Ref { kind: "glyf-component", at: glyf.off + off + at + 2, width: 2, owner: g as u32, bias: 0 });
+                at += 4 + if flags & 1 != 0 { 4 } else { 2 };
+                at += if flags & 0x08 != 0 {
+                    2
+                } else if flags & 0x40 != 0 {
+                    4
+                } else if flags & 0x80 != 0 {
+                    8
+                } else {
+                    0
+                };
+                if flags & 0x20 == 0 {
+                    break;
+                }
+            }
+        }
+    }
+    // GSUB / GPOS: nested lookup indices
+    for (name, gsub) in [("GSUB", true), ("GPOS", false)] {
+        if let Some(r) = tab(name) {
+            otl_refs(&d[r.off..r.off + r.len], r.off, gsub, &mut out);
+        }
+    }
+    // CFF: subroutine calls inside subroutines (one-byte operands only)
+    if let Some(r) = tab("CFF ") {
+        let t = &d[r.off..r.off + r.len];
+        let hdr = *t.get(2).unwrap_or(&4) as usize;
+        let gs = cff_index_objects(t, hdr, false)
+            .and_then(|(a, _)| cff_index_objects(t, a, false))
+            .and_then(|(a, _)| cff_index_objects(t, a, false))
+            .and_then(|(a, _)| cff_index_objects(t, a, false));
+        if let Some((_, subrs)) = gs {
+            let bias = if subrs.len() < 1240 { 107 } else { 1131 };
+            for (i, (o, len)) in subrs.iter().enumerate().take(32) {
+                if let Some(cs) = t.get(*o..*o + *len) {
+                    for (p, global) in charstring_calls(cs) {
+                        if global {
+                            out.push(Ref { kind: "cff-gsubr", at: r.off + o + p, width: 1, owner: i as u32, bias: 139 - bias });
+                        }
+                    }
+                }
+            }
+        }
+    }
+    // TTC: member offsets
+    if l.kind == Kind::Ttc {
+        let n = be32(d, 8).unwrap_or(0) as usize;
+        for i in 0..n.min(8) {
+            if let Some(o) = be32(d, 12 + 4 * i) {
+                out.push(Ref { kind: "ttc-member", at: 12 + 4 * i, width: 4, owner: o, bias: 0 });
+            }
+        }
+    }
+    out.retain(|r| r.at + r.width as usize <= d.len());
+    out
+}
+
+/// Rewire `n` (1..=3) references of one kind into a cycle: the field of the i-th chosen record
+/// is made to name the (i+1)-th chosen record, the last one the first (n = 1: itself).
+/// `tail`: the last record names `tail_value` instead (a chain that ends out of range).
+pub fn rewire(d: &mut Vec<u8>, kind_r: u32, picks: &[u32], tail: Option<u32>) -> String {
+    let l = analyse(d);
+    let refs = find_refs(d, &l);
+    if refs.is_empty() {
+        return "rewire: no references".into();
+    }
+    let mut kinds: Vec<&'static str> = Vec::new();
+    for r in &refs {
+        if !kinds.contains(&r.kind) {
+            kinds.push(r.kind);
+        }
+    }
+    let kind = kinds[pick(kinds.len(), kind_r)];
+    // one reference field per distinct owner
+    let mut pool: Vec<&Ref> = Vec::new();
+    for r in refs.iter().filter(|r| r.kind == kind) {
+        if !pool.iter().any(|p| p.owner == r.owner) {
+            pool.push(r);
+        }
+    }
+    let mut chosen: Vec<&Ref> = Vec::new();
+    for p in picks.iter().take(3) {
+        if pool.is_empty() {
+            break;
+        }
+        chosen.push(pool.remove(pick(pool.len(), *p)));
+    }
+    let k = chosen.len();
+    if k == 0 {
+        return "rewire: nothing chosen".into();
+    }
+    let mut desc = format!("rewire {}:", kind);
+    for i in 0..k {
+        let target = if i + 1 == k { tail.unwrap_or(chosen[0].owner) } else { chosen[i + 1].owner };
+        let v = (target as i64 + chosen[i].bias as i64) as u32;
+        if chosen[i].width == 1 && !(32..=246).contains(&v) {
+            continue;
+        }
+        write_be(d, chosen[i].at, chosen[i].width, v);
+        desc.push_str(&format!(" {}->{}", chosen[i].owner, target));
+    }
+    desc
+}
+
+// ------------------------------------------------------------------------------------------
 // independent container encoders used by the re-wrap faults
 
 /// A TrueType collection holding `fonts` (each a list of tables); tables are not shared.
@@ -1536,7 +1847,7 @@ fn cff_self_seac(base: &[u8]) -> Option<Vec<u8>> {
 }
 
 /// glyf record of a composite glyph: `components` = (glyph id, dx, dy), byte offsets.
-fn glyf_composite(components: &[(u16, i8, i8)]) -> Vec<u8> {
+pub fn glyf_composite(components: &[(u16, i8, i8)]) -> Vec<u8> {
     let mut b = Buf::new();
     b.i16(-1).i16(0).i16(0).i16(500).i16(700);
     for (i, (g, dx, dy)) in components.iter().enumerate() {
@@ -1548,7 +1859,7 @@ fn glyf_composite(components: &[(u16, i8, i8)]) -> Vec<u8> {
 }
 
 /// gvar table without variation data for any glyph
-fn gvar_empty(axis_count: u16, glyph_count: u16) -> Vec<u8> {
+pub fn gvar_empty(axis_count: u16, glyph_count: u16) -> Vec<u8> {
     let mut b = Buf::new();
     let offsets_len = 2 * (glyph_count as u32 + 1);
     b.u16(1).u16(0).u16(axis_count).u16(0).u32(20 + offsets_len).u16(glyph_count).u16(0).u32(20 + offsets_len);
@@ -1558,11 +1869,11 @@ fn gvar_empty(axis_count: u16, glyph_count: u16) -> Vec<u8> {
     b.into_vec()
 }
 
-fn wght_axis() -> Vec<crate::fontgen::var::AxisModel> {
+pub fn wght_axis() -> Vec<crate::fontgen::var::AxisModel> {
     vec![crate::fontgen::var::AxisModel { tag: *b"wght", min: 100 << 16, default: 400 << 16, max: 900 << 16, flags: 0, name_id: 256 }]
 }
 
-fn cff_index(objs: &[Vec<u8>]) -> Vec<u8> {
+pub fn cff_index(objs: &[Vec<u8>]) -> Vec<u8> {
     let mut b = Buf::new();
     b.u16(objs.len() as u16);
     if objs.is_empty() {
@@ -1608,7 +1919,7 @@ pub fn cff_table(gsubrs: &[Vec<u8>], charstrings: &[Vec<u8>]) -> Vec<u8> {
 }
 
 /// `base` (an OTTO font) with its CFF table replaced and the glyph count adjusted.
-fn with_cff(base: &[u8], cff: Vec<u8>, num_glyphs: u16) -> Option<Vec<u8>> {
+pub fn with_cff(base: &[u8], cff: Vec<u8>, num_glyphs: u16) -> Option<Vec<u8>> {
     let (flavour, mut tabs) = sfnt_tables(base)?;
     for (t, d) in tabs.iter_mut() {
         if &*t == b"CFF " {
@@ -1623,7 +1934,7 @@ fn with_cff(base: &[u8], cff: Vec<u8>, num_glyphs: u16) -> Option<Vec<u8>> {
 }
 
 /// Type 2 CharString fragment: `n` calls of global subroutine `idx` (bias 107).
-fn call_gsubr(idx: i32, n: usize) -> Vec<u8> {
+pub fn call_gsubr(idx: i32, n: usize) -> Vec<u8> {
     let mut v = Vec::new();
     for _ in 0..n {
         v.push((idx - 107 + 139) as u8);
@@ -1773,6 +2084,10 @@ pub enum Fault {
     Wrap { kind: u8, r: u32 },
     /// insert or remove bytes (shifts everything behind)
     Splice { region: u32, pos: u32, remove: bool, n: u8 },
+    /// make 1-3 existing references between records of one kind (sbix dupe, composite component,
+    /// nested lookup, subroutine call, TTC member) name each other in a cycle, or a chain that
+    /// ends out of range
+    Rewire { kind: u32, picks: Vec<u32>, tail: Option<u32> },
 }
 
 impl Fault {
@@ -1788,6 +2103,7 @@ impl Fault {
             Fault::Woff2Flags { .. } => "woff2-flags",
             Fault::Wrap { .. } => "wrap",
             Fault::Splice { .. } => "splice",
+            Fault::Rewire { .. } => "rewire",
         }
     }
 }
@@ -2062,6 +2378,7 @@ pub fn apply(d: &mut Vec<u8>, f: &Fault) -> String {
             *d = out;
             format!("wrap as {}", what)
         }
+        Fault::Rewire { kind, picks, tail } => rewire(d, *kind, picks, *tail),
         Fault::Splice { region, pos, remove, n } => {
             let r = &l.regions[pick(l.regions.len(), *region)];
             let at = r.off + pick(r.len, *pos);
